@@ -27,6 +27,9 @@ _ALLOWED_FUNCTIONS: dict[str, Callable[..., sympy.Expr]] = {
     "sqrt": sympy.sqrt,
     "mod": sympy.Mod,
     "Mod": sympy.Mod,
+    # what SymPy prints for math.trunc(dim): sign(x)*floor(Abs(x))
+    "Abs": sympy.Abs,
+    "sign": sympy.sign,
 }
 
 
@@ -113,7 +116,7 @@ class _ExpressionParser:
 
     Supports:
         - Basic arithmetic: +, -, *, /, //, %, **
-        - Functions: max(), min(), floor(), ceiling(), sqrt()
+        - Functions: max(), min(), floor(), ceiling(), Abs(), sign(), sqrt()
         - Symbolic variables (identifiers)
         - Integer literals
         - Parentheses for grouping
@@ -295,7 +298,7 @@ def parse_symbolic_expression(value: str) -> sympy.Expr:
 
     Supports:
         - Basic arithmetic: +, -, *, /, //, %, **
-        - Functions: max(), min(), floor(), ceiling(), sqrt()
+        - Functions: max(), min(), floor(), ceiling(), Abs(), sign(), sqrt()
         - Symbolic variables (identifiers)
         - Integer literals
         - Parentheses for grouping
